@@ -28,6 +28,7 @@ class Sim:
         self.o = util.sp(self.seq)
         self.model = []
         self.buf = []            # a caller-owned list that is refilled in place and passed again
+        self.long = bool(init.get("long"))
         self.flags = set()
         self.cleared = False
         self.nsteps = 0
@@ -58,6 +59,11 @@ class Sim:
         N = len(self.seq)
         if op == "set":
             vals = args["vals"]
+            if self.long:
+                # many positions at once (all over the sequence), with repeats inside the same call
+                rnd_ = __import__("random").Random(len(self.model) * 7919 + sum(vals))
+                vals = [rnd_.randint(1, N) for _ in range(40)] + vals
+                vals = vals + vals[:3]
             if args["kind"] == "shared-list":
                 if args.get("grow"):
                     self.buf.extend(vals)        # grow the same list object
@@ -83,13 +89,15 @@ class Sim:
                     self.model.append(p)
             self.o.set_phosphosites(arg)
             self.verify("set_phosphosites(%r)" % (list(arg) if isinstance(arg, list) else arg,))
-            if args.get("check_kappa") and len(self.model) >= 3:
+            if args.get("check_kappa") and len(self.model) >= 3 and not self.long:
                 self.apply_kappa()
         elif op == "clear":
             self.model = []
             self.cleared = True
             self.o.clear_phosphosites()
             self.verify("clear_phosphosites()")
+        elif op == "query" and self.long:
+            self.verify("(long sequence: query skipped)")
         elif op == "query":
             # other read-only queries in between (they may fill caches) must not disturb the phospho state or its derived values
             try:
@@ -99,7 +107,8 @@ class Sim:
             self.verify(args["q"])
             self.flags.add("interleaved-query")
         elif op == "kappa":
-            self.apply_kappa()
+            if not self.long:
+                self.apply_kappa()
         elif op == "dist":
             k = len(self.model)
             if k > 4:
@@ -148,7 +157,9 @@ def ops_for(N):
 
 @st.composite
 def inits(draw):
-    cls = draw(st.sampled_from(["sty-rich", "sty-rich", "sty-free", "mixed"]))
+    cls = draw(st.sampled_from(["sty-rich", "sty-rich", "sty-free", "mixed", "long-sty"]))
+    if cls == "long-sty":
+        return {"seq": draw(gens.exact_words("STY" * 5 + "KEG", draw(st.integers(90, 140)))), "long": True}
     n = draw(st.integers(1, 24))
     alpha = {"sty-rich": "STY" * 3 + "KEDRG", "sty-free": "ACDEFGHIKLMNPQRVW", "mixed": ref.AA}[cls]
     return {"seq": draw(gens.exact_words(alpha, n))}
